@@ -530,8 +530,12 @@ func makeSource(kind int, bits ref.Bits, k, extra int) (boc.BitString, *boc.Cell
 	var src boc.BitString
 	var cell *boc.Cell
 	switch kind {
-	case 0: // written, then partly read
+	case 0: // written, then partly read; the variable it was copied from (same buffer) is written to afterwards,
+		// so the buffer holds one-bits behind the end of the copy
 		src = plain
+		if extra > 0 {
+			_ = plain.WriteUint(1<<uint(extra)-1, extra)
+		}
 	case 1: // the bits of a cell that has been read from (n <= 1023)
 		cell = boc.NewCell()
 		if err := cell.WriteBitString(plain); err != nil {
